@@ -107,13 +107,49 @@ def spaces(tier, seed):
     ]
     sp.append(Product("jalali-all-dates", {"cal": ["jalali"], "y": range(1200, 1501), "m": range(1, 13), "d": range(1, 32),
                                                "form": ["y/m/d"], "msp": [0], "dsp": [0], "t": [0]}, note="every Jalali date 1200..1500"))
+    # the same numbers read by both calendar parsers one after the other (either order): a result must not depend on what the
+    # other calendar converted before - a two-call history carried inside the case, so that it replays in a fresh process
+    sp.append(Product("both-calendars-same-numbers", {"y": [1343, 1394, 1400, 1446, 1500] if not T else range(1343, 1501), "m": range(1, 13),
+                                                      "d": [1, 15, 26, 29, 30], "first": ["jalali", "hijri"], "t": [0, 1]}))
     if T:
         sp.append(Product("jalali-all-spellings-every-10th-year", {"cal": ["jalali"], "y": range(1200, 1501, 10), "m": range(1, 13), "d": range(1, 32),
                                                                    "form": J_FORMS, "msp": [0, 1], "dsp": [0, 1], "t": [0, 2]}))
     return sp
 
 
+def run_both(c):
+    from convertdate import persian
+    from hijridate import Hijri
+    from dateparser.calendars.hijri import HijriCalendar
+    from dateparser.calendars.jalali import JalaliCalendar
+    y, m, d, t = c["y"], c["m"], c["d"], c["t"]
+    exp = {}
+    if d <= persian.month_length(y, m):
+        exp["jalali"] = datetime(*persian.to_gregorian(y, m, d), *J_TIME_VAL[t])
+    try:
+        exp["hijri"] = datetime(*Hijri(y, m, d).to_gregorian().datetuple(), *H_TIME_VAL[t])
+    except (ValueError, OverflowError):
+        pass
+    if len(exp) < 2:
+        return None
+    strs = {"jalali": "%04d/%02d/%02d%s" % (y, m, d, J_TIMES[t]), "hijri": "%04d/%02d/%02d%s" % (y, m, d, H_TIMES[t])}
+    order = [c["first"], "hijri" if c["first"] == "jalali" else "jalali"]
+    got = {}
+    for cal_ in order:
+        K = JalaliCalendar if cal_ == "jalali" else HijriCalendar
+        o = api.outcome_of(lambda: K(strs[cal_]).get_date())
+        got[cal_] = (o[1].date_obj if o[1] is not None else None) if o[0] == "ok" else ("exc",) + tuple(o[1:2])
+    for cal_ in order:
+        if got[cal_] != exp[cal_]:
+            return "bad", True, {"cls": {"calendar": cal_, "form": "both-calendars", "kind": "wrong-value", "first": c["first"], "time": bool(t),
+                                         "position": "first" if cal_ == c["first"] else "second"},
+                                 "expected": exp, "observed": got, "detail": {"strings": strs, "order": order}}
+    return "ok", True, None
+
+
 def run_case(sub, c):
+    if sub == "both-calendars-same-numbers":
+        return run_both(c)
     y = c["y"]
     m, d = c["md"] if "md" in c else (c["m"], c["d"])
     t = c["t"]
